@@ -18,10 +18,12 @@ type pgen struct {
 
 func (g *pgen) feat(f string) { g.feats[f] = true }
 
-var plainChars = []string{"a", "b", "c", "a", "b", "c", "a", "b", "-", "A", "B", "1", "_", " "}
+var plainChars = []string{"a", "b", "c", "a", "b", "c", "a", "b", "-", "A", "B", "1", "_", " ", "a", "b", "c", "a", "b", "c", "a", "b", "-", "A", "B", "1", "_", " ", "/"}
 
 var otherEscapes = []string{`\x61`, `\x62`, `a`, `c`, `\cJ`, `\cj`, `\0`, `\t`, `\v`, `\f`, `\r`, `\x0A`, `\u000a`,
-	`\.`, `\-`, `\*`, `\/`, `\$`, `\|`, `\(`, `\)`, `\[`, `\]`, `\{`, `\}`, `\\`, `\^`, `\+`, `\?`, `\x2d`, `é`, `\xE9`, `\cI`, `\cP`, `\cp`, `\cZ`, `\cA`, `\x1f`, `\x7F`}
+	`\.`, `\-`, `\*`, `\/`, `\$`, `\|`, `\(`, `\)`, `\[`, `\]`, `\{`, `\}`, `\\`, `\^`, `\+`, `\?`, `\x2d`, `é`, `\xE9`, `\cI`, `\cP`, `\cp`, `\cZ`, `\cA`, `\x1f`, `\x7F`,
+	// IdentityEscape of characters outside ASCII that are not IdentifierPart (15.10.1)
+	"\\\u2014", "\\\u20ac", "\\\u00a7", "\u2014"}
 
 var classEscapes = []string{`\d`, `\D`, `\w`, `\W`, `\s`, `\S`}
 
@@ -68,12 +70,12 @@ func (g *pgen) term(depth int) string {
 	case 4:
 		q = "?"
 	case 5:
-		q = fmt.Sprintf("{%d}", g.r.Intn(4))
+		q = fmt.Sprintf("{%s}", g.count(g.r.Intn(4)))
 	case 6:
-		q = fmt.Sprintf("{%d,}", g.r.Intn(3))
+		q = fmt.Sprintf("{%s,}", g.count(g.r.Intn(3)))
 	default:
 		lo := g.r.Intn(3)
-		q = fmt.Sprintf("{%d,%d}", lo, lo+g.r.Intn(3))
+		q = fmt.Sprintf("{%s,%s}", g.count(lo), g.count(lo+g.r.Intn(3)))
 	}
 	if q[0] == '{' {
 		g.feat("quant:{}")
@@ -85,6 +87,15 @@ func (g *pgen) term(depth int) string {
 		g.feat("lazy")
 	}
 	return atom + q
+}
+
+// count writes a repeat count; DecimalDigits (15.10.1) may have leading zeros.
+func (g *pgen) count(n int) string {
+	if g.r.Chance(1, 5) {
+		g.feat("quant:leading-zero")
+		return strings.Repeat("0", g.r.Range(1, 2)) + fmt.Sprint(n)
+	}
+	return fmt.Sprint(n)
 }
 
 func (g *pgen) atom(depth int) string {
@@ -256,7 +267,7 @@ func allStrings(alpha []string, n int) []string {
 var std4 = allStrings(smallAlphabet, 4) // 341
 var std5 = allStrings(smallAlphabet, 5) // 1365
 
-var wideAlphabet = []string{"a", "b", "c", "\n", "a", "b", "c", "-", "A", "B", "C", " ", "1", "_", "\r", "\t", "\v", "é", " ", "/", ".", "\x00", "]", "\x10", "\x1a", "\x01", "\x1f", "\x7f"}
+var wideAlphabet = []string{"a", "b", "c", "\n", "a", "b", "c", "-", "A", "B", "C", " ", "1", "_", "\r", "\t", "\v", "é", " ", "/", ".", "\x00", "]", "\x10", "\x1a", "\x01", "\x1f", "\x7f", "\u2014", "\u20ac"}
 
 func randString(r *gen.Rand, alpha []string, lo, hi int) string {
 	n := r.Range(lo, hi)
@@ -444,6 +455,11 @@ func mutate(r *gen.Rand, p string) (string, string) {
 		}
 		return []string{"(?=", "(?!"}[r.Intn(2)] + p + ")", "lookahead"
 	case 1: // back-reference
+		if r.Chance(1, 3) {
+			// a two-digit reference to a group that exists (15.10.2.9), not an octal escape
+			n := r.Range(10, 12)
+			return strings.Repeat("(a)", n) + p + fmt.Sprintf(`\%d`, r.Range(10, n)), "backref"
+		}
 		return p + fmt.Sprintf(`\%d`, r.Range(1, 9)), "backref"
 	case 2: // drop a closer
 		for _, ch := range []string{")", "]"} {
